@@ -19,8 +19,9 @@ type finding struct {
 	what    string
 	replay  map[string]any
 	minID   int
-	count   int
-	attrib  bool
+	count    int
+	attrib   bool
+	culprits []string
 }
 
 type driver struct {
@@ -97,13 +98,17 @@ func (d *driver) record(key, what string, replay map[string]any, id int, attrib 
 		f.what, f.replay, f.minID, f.attrib = what, replay, id, true
 	}
 	f.count++
+	if attrib {
+		f.culprits = append(f.culprits, what[strings.LastIndex(what, "after exchange ")+len("after exchange "):])
+	}
 }
 
 // lane owns one worker at a time and runs its share of the exchanges.
 type lane struct {
-	d  *driver
-	id int
-	w  *Worker
+	d       *driver
+	id      int
+	w       *Worker
+	retired bool
 }
 
 func (l *lane) tryEnsure() error {
@@ -197,42 +202,69 @@ func (l *lane) runSet(set []*Exchange, o execOpts, count bool) bool {
 	return true
 }
 
-// bisect finds one exchange of set that kills a fresh worker on its own.
-func (l *lane) bisect(set []*Exchange) (*Exchange, crashInfo) {
-	cands := set
-	var last crashInfo
-	for len(cands) > 1 {
-		half := len(cands) / 2
-		parts := [][]*Exchange{cands[:half], cands[half:]}
-		found := false
-		for _, o := range []execOpts{fastOpts, normalOpts} {
-			for _, p := range parts {
-				l.ensure()
-				l.d.bisectRounds.Add(1)
-				if !l.runSet(p, o, false) {
-					last = parseCrash(l.w)
-					cands = p
-					found = true
-					break
-				}
-			}
-			if found {
-				break
-			}
-		}
-		if !found {
-			return nil, last
-		}
+// process delivers a set; when the worker dies it splits the set and recurses, so that every exchange is delivered
+// to a worker that survives it or is identified as one that kills a fresh worker on its own (twice). It returns the
+// number of culprits found.
+func (l *lane) process(set []*Exchange, depth int) int {
+	if len(set) == 0 {
+		return 0
 	}
-	// confirm: the single exchange must kill two fresh workers in a row
-	for i := 0; i < 2; i++ {
+	if time.Now().After(l.d.deadline) {
+		l.d.timedOut.Store(true)
+		l.d.skipped.Add(int64(len(set)))
+		return 0
+	}
+	if depth > 0 {
+		l.d.bisectRounds.Add(1)
+	}
+	l.ensure()
+	if l.runSet(set, normalOpts, true) {
+		l.d.r.Eval(len(set))
+		return 0
+	}
+	// the worker died
+	l.d.deaths.Add(1)
+	ci := parseCrash(l.w)
+	if len(set) == 1 {
+		e := set[0]
+		// confirm on a fresh worker
 		l.restart()
-		if l.runSet(cands, normalOpts, false) {
-			return nil, last
+		if l.runSet(set, normalOpts, false) {
+			l.d.r.Eval(1)
+			l.d.record(ci.key("unattributed"), fmt.Sprintf("worker died once (%s: %s at %s) on exchange %s but not when it was delivered again",
+				ci.Kind, ci.Msg, ci.Site, e), l.d.replayOf(e, ci), e.ID, false)
+			return 0
 		}
-		last = parseCrash(l.w)
+		ci = parseCrash(l.w)
+		l.d.culprits.Add(1)
+		l.d.r.Eval(1)
+		what := fmt.Sprintf("listener %s: %s: %s at %s (%s) after exchange %s", e.Seed.Listener, ci.Kind, ci.Msg, ci.Site, ci.Exit, e)
+		l.d.record(ci.key(e.Seed.Listener), what, l.d.replayOf(e, ci), e.ID, true)
+		if e.Mut.Kind == mSeed {
+			l.d.mu.Lock()
+			l.d.skipSeed[e.Seed] = true
+			l.d.mu.Unlock()
+		}
+		return 1
 	}
-	return cands[0], last
+	if l.d.culprits.Load() >= maxCulprits {
+		l.d.record(ci.key("unattributed"), "worker died; attribution budget exhausted: "+ci.Kind+": "+ci.Msg+" at "+ci.Site,
+			map[string]any{"crash": ci.Text, "first_of_set": set[0].String()}, set[0].ID, false)
+		l.d.skipped.Add(int64(len(set)))
+		return 0
+	}
+	half := len(set) / 2
+	n := l.process(set[:half], depth+1)
+	n += l.process(set[half:], depth+1)
+	if n == 0 && !l.d.timedOut.Load() {
+		ids := make([]int, 0, len(set))
+		for _, e := range set {
+			ids = append(ids, e.ID)
+		}
+		l.d.record(ci.key("unattributed"), fmt.Sprintf("worker died (%s: %s at %s) while a set of %d exchanges was delivered; neither half reproduces it",
+			ci.Kind, ci.Msg, ci.Site, len(set)), map[string]any{"crash": ci.Text, "exchange_ids": ids, "first": set[0].String()}, set[0].ID, false)
+	}
+	return n
 }
 
 // runChunk runs a chunk to completion, attributing every death to one exchange. It returns false when the lane could
@@ -242,76 +274,19 @@ func (l *lane) runChunk(chunk []*Exchange) bool {
 		l.d.r.Note("lane %d retired: %v", l.id, err)
 		return false
 	}
-	l.runChunk2(chunk)
-	return true
-}
-
-func (l *lane) runChunk2(chunk []*Exchange) {
-	pending := chunk
-	for len(pending) > 0 {
-		if time.Now().After(l.d.deadline) {
-			l.d.timedOut.Store(true)
-			l.d.skipped.Add(int64(len(pending)))
-			return
+	// drop mutants of seeds already known to crash unmutated
+	l.d.mu.Lock()
+	var keep []*Exchange
+	for _, e := range chunk {
+		if l.d.skipSeed[e.Seed] && e.Mut.Kind != mSeed {
+			l.d.skipped.Add(1)
+			continue
 		}
-		// drop mutants of seeds already known to crash unmutated
-		l.d.mu.Lock()
-		var keep []*Exchange
-		for _, e := range pending {
-			if l.d.skipSeed[e.Seed] && e.Mut.Kind != mSeed {
-				l.d.skipped.Add(1)
-				continue
-			}
-			keep = append(keep, e)
-		}
-		l.d.mu.Unlock()
-		pending = keep
-		if len(pending) == 0 {
-			return
-		}
-		l.ensure()
-		if l.runSet(pending, normalOpts, true) {
-			l.d.r.Eval(len(pending))
-			return
-		}
-		// the worker died
-		l.d.deaths.Add(1)
-		ci := parseCrash(l.w)
-		if l.d.culprits.Load() >= maxCulprits {
-			l.d.record(ci.key("unattributed"), "worker died; attribution budget exhausted: "+ci.Kind+": "+ci.Msg+" at "+ci.Site,
-				map[string]any{"crash": ci.Text, "first_of_chunk": pending[0].String()}, pending[0].ID, false)
-			l.d.skipped.Add(int64(len(pending)))
-			return
-		}
-		culprit, ci2 := l.bisect(pending)
-		if culprit == nil {
-			ids := make([]int, 0, len(pending))
-			for _, e := range pending {
-				ids = append(ids, e.ID)
-			}
-			l.d.record(ci.key("unattributed"), fmt.Sprintf("worker died (%s: %s at %s) while a set of %d exchanges was delivered; no single exchange reproduces it",
-				ci.Kind, ci.Msg, ci.Site, len(pending)), map[string]any{"crash": ci.Text, "exchange_ids": ids, "first": pending[0].String()}, pending[0].ID, false)
-			l.d.r.Eval(len(pending))
-			return
-		}
-		l.d.culprits.Add(1)
-		key := ci2.key(culprit.Seed.Listener)
-		what := fmt.Sprintf("listener %s: %s: %s at %s (%s) after exchange %s", culprit.Seed.Listener, ci2.Kind, ci2.Msg, ci2.Site, ci2.Exit, culprit)
-		l.d.record(key, what, l.d.replayOf(culprit, ci2), culprit.ID, true)
-		l.d.r.Eval(1)
-		if culprit.Mut.Kind == mSeed {
-			l.d.mu.Lock()
-			l.d.skipSeed[culprit.Seed] = true
-			l.d.mu.Unlock()
-		}
-		var rest []*Exchange
-		for _, e := range pending {
-			if e != culprit {
-				rest = append(rest, e)
-			}
-		}
-		pending = rest
+		keep = append(keep, e)
 	}
+	l.d.mu.Unlock()
+	l.process(keep, 0)
+	return true
 }
 
 func allSeeds(thorough bool) []*Seed {
@@ -445,50 +420,56 @@ func driverMain() {
 
 	fmt.Printf("C35 %s: %d seeds, %d exchanges (%d unmutated + %d single-deviation mutants), %d lanes\n", r.Tier, len(seeds), total, len(phase0), len(phase1), nl)
 
-	// phase 0 on one lane
-	if !lanes[0].runChunk(phase0) {
-		vcommon.Harness("cannot start the first worker (see notes)")
+	var retired atomic.Int64
+	runPhase := func(list []*Exchange, chunkSize int) {
+		nchunks := (len(list) + chunkSize - 1) / chunkSize
+		queue := make(chan int, nchunks+1)
+		for c := 0; c < nchunks; c++ {
+			queue <- c
+		}
+		var remaining atomic.Int64
+		remaining.Store(int64(nchunks))
+		var wg sync.WaitGroup
+		for _, l := range lanes {
+			if l.retired {
+				continue
+			}
+			wg.Add(1)
+			go func(l *lane) {
+				defer wg.Done()
+				for remaining.Load() > 0 {
+					var c int
+					select {
+					case c = <-queue:
+					case <-time.After(100 * time.Millisecond):
+						continue
+					}
+					lo, hi := c*chunkSize, (c+1)*chunkSize
+					if hi > len(list) {
+						hi = len(list)
+					}
+					if !l.runChunk(list[lo:hi]) {
+						queue <- c
+						l.retired = true
+						if int(retired.Add(1)) == len(lanes) {
+							vcommon.Harness("no lane can start a worker any more")
+						}
+						return
+					}
+					remaining.Add(-1)
+				}
+			}(l)
+		}
+		wg.Wait()
 	}
+
+	// phase 0: every seed unmutated, one by one (a seed that kills the worker is identified at once and its mutants
+	// are not run)
+	runPhase(phase0, 1)
 	fmt.Printf("C35: phase 0 done, %d deaths so far, %.1fs\n", d.deaths.Load(), time.Since(startTime).Seconds())
 
-	// phase 1: chunks handed out to lanes
-	chunkSize := *flagChunk
-	nchunks := (len(phase1) + chunkSize - 1) / chunkSize
-	queue := make(chan int, nchunks+1)
-	for c := 0; c < nchunks; c++ {
-		queue <- c
-	}
-	var remaining atomic.Int64
-	remaining.Store(int64(nchunks))
-	var retired atomic.Int64
-	var wg sync.WaitGroup
-	for _, l := range lanes {
-		wg.Add(1)
-		go func(l *lane) {
-			defer wg.Done()
-			for remaining.Load() > 0 {
-				var c int
-				select {
-				case c = <-queue:
-				case <-time.After(200 * time.Millisecond):
-					continue
-				}
-				lo, hi := c*chunkSize, (c+1)*chunkSize
-				if hi > len(phase1) {
-					hi = len(phase1)
-				}
-				if !l.runChunk(phase1[lo:hi]) {
-					queue <- c
-					if int(retired.Add(1)) == len(lanes) {
-						vcommon.Harness("no lane can start a worker any more")
-					}
-					return
-				}
-				remaining.Add(-1)
-			}
-		}(l)
-	}
-	wg.Wait()
+	// phase 1: chunks of mutants handed out to the lanes
+	runPhase(phase1, *flagChunk)
 	r.Set("lanes_retired", retired.Load())
 
 	// ---- evidence ----
@@ -558,10 +539,16 @@ func driverMain() {
 		vcommon.Harness("%d of %d exchanges could not connect to the worker (overload?); the run is not conclusive", dialErrs, total)
 	}
 	d.mu.Lock()
+	culpritLists := map[string][]string{}
 	for _, f := range d.findings {
 		for i := 0; i < f.count; i++ {
 			r.Violation(f.key, f.what, f.replay)
 		}
+		sort.Strings(f.culprits)
+		culpritLists[f.key] = f.culprits
+	}
+	if len(culpritLists) > 0 {
+		r.Set("culprit_exchanges", culpritLists)
 	}
 	var sk []string
 	for s := range d.skipSeed {
